@@ -167,6 +167,32 @@ def judge(src, pivot, mode, fmt, channel, res):
     return "fail", [("beyond_known_deviation:" + k, d) for k, d in p2]
 
 
+# Mechanism of the property record: "filter keeps a node when its key is in the keep-set or a descendant is, and copies
+# subtrees without rewriting"; keep-sets as documented (module docstring of projector.py, tool description, property text).
+DOCUMENTED_KEEP = {"executive": {"STATUS", "RISKS", "DECISIONS"}, "developer": {"TESTS", "CI", "DEPS"}}
+
+
+def spec_filter(nodes, keep):
+    out = []
+    for n in nodes:
+        if n["n"] == "a":
+            if n["k"] in keep:
+                out.append(n)
+        elif n["n"] == "b":
+            if n["k"] in keep:
+                out.append(n)                  # whole subtree, copied without rewriting
+            else:
+                ch = spec_filter(n["c"], keep)
+                if ch:
+                    out.append({**n, "c": ch})   # kept because a descendant is kept
+    return out
+
+
+def mechanism_applies(doc):
+    """The sentence speaks about Assignment/Block nodes; documents with Section / Comment nodes are left to the correspondence."""
+    return not any(n["n"] in ("s", "c") for n in PD.walk_nodes(doc["sections"]))
+
+
 # ---------------------------------------------------------------------------------------------
 # worker: run the implementation on one case (module level for pmap)
 # ---------------------------------------------------------------------------------------------
@@ -390,6 +416,16 @@ def run(ctx: vlib.Ctx):
                 ctx.failures.append({"case": {"doc": doc, "mode": mode, "via": case["via"]}, "why": f"{mode} projection is not the document or lossy={obs['lossy']}", "why_class": "lossless-mode"})
             if atoms(pivot) != atoms(doc) and obs["lossy"] is not True:
                 ctx.failures.append({"case": {"doc": doc, "mode": mode, "via": case["via"]}, "why": "projection dropped leaves but lossy is not True", "why_class": "dishonest-projection"})
+            if mode in DOCUMENTED_KEEP and mechanism_applies(doc):
+                want = {**PD.strip_comments(doc), "sections": spec_filter(PD.strip_comments(doc)["sections"], DOCUMENTED_KEEP[mode])}
+                if atoms(want) != atoms(pivot) or json.dumps(want["sections"], sort_keys=True) != json.dumps(PD.strip_comments(pivot)["sections"], sort_keys=True):
+                    ctx.count("mechanism:FAIL")
+                    ctx.failures.append({"case": {"doc": doc, "mode": mode, "via": case["via"], "text": PD.render(doc) if case["via"] == "text" else None},
+                                         "why": f"{mode} projection is not 'keep a node when its key is in {sorted(DOCUMENTED_KEEP[mode])} or a descendant is, subtrees copied "
+                                                f"without rewriting': expected leaves {short(atoms(want) - atoms(pivot))} missing, {short(atoms(pivot) - atoms(want))} unexpected",
+                                         "why_class": "mechanism:" + mode, "expected_projection": want["sections"], "observed_projection": pivot["sections"]})
+                else:
+                    ctx.count("mechanism:ok")
             for key, res in r["cells"].items():
                 channel, m, fmt = key.split("|")
                 if m != mode:
